@@ -228,6 +228,10 @@ def chk_twogrid(c):
     kvc = bspline.make_knots(c['p'], 0.0, 1.0, c['n'] // 2)
     A = (assemble.stiffness(kv) + assemble.mass(kv)).tocsr()
     P = bspline.prolongation(kvc, kv)
+    # storage kinds of the two matrices (bspline.prolongation always returns a sparse matrix; a small fine-grid matrix may well be dense)
+    kinds = c.get('kinds', 'ss')
+    A = {'s': A, 'd': A.toarray(), 'c': A.tocsc()}[kinds[0]]
+    P = {'s': P, 'd': P.toarray(), 'c': P.tocsc()}[kinds[1]]
     rng = np.random.RandomState(c['seed'])
     f = rng.randn(A.shape[0])
     u0 = None if c['u0'] == 'none' else (np.zeros(A.shape[0]) if c['u0'] == 'zeros' else rng.randn(A.shape[0]))
@@ -240,7 +244,10 @@ def chk_twogrid(c):
     u0_before = None if u0 is None else np.array(u0, dtype=float)
     buf = io.StringIO()
     with contextlib.redirect_stdout(buf):
-        u = solvers.twogrid(A, f, P, solvers.GaussSeidelSmoother(), u0=u0, tol=1e-9, maxiter=200)
+        import warnings
+        with warnings.catch_warnings():
+            warnings.simplefilter('ignore')      # (performance warning for non-CSR storage)
+            u = solvers.twogrid(A, f, P, solvers.GaussSeidelSmoother(), u0=u0, tol=1e-9, maxiter=200)
     assert np.linalg.norm(f - A @ u) <= 1e-6 * np.linalg.norm(f), 'two-grid did not converge for an SPD problem'
     if u0 is not None:
         assert np.array_equal(np.array(u0, dtype=float), u0_before), 'twogrid modified the caller\'s starting vector'
@@ -362,6 +369,9 @@ def generate(tier, rng):
     for p in (1, 2, 3):
         for u0 in ('none', 'zeros', 'random', 'int', 'list', 'float32'):
             yield 'twogrid', {'p': p, 'n': 8, 'seed': p, 'u0': u0}
+    for kinds in ('dd', 'ds', 'sd', 'cc', 'dc'):
+        for u0 in ('none', 'random'):
+            yield 'twogrid', {'p': 2, 'n': 8, 'seed': 5, 'u0': u0, 'kinds': kinds}
 
 
 if __name__ == '__main__':
